@@ -79,7 +79,7 @@ def header_text(name, guard=None, define=True, before="", after="", double=False
 
 def bounded(seed, thorough):
     rnd = random.Random(seed)
-    names = ["a.h", "ft_list.h", "x9_.h", "lib.ft.h", "a.b.c.h"]
+    names = ["a.h", "ft_list.h", "x9_.h", "lib.ft.h", "a.b.c.h", "a..h", "ft_x...v2.h", "_.h", "z__9.h"]
     alpha = "abcdefghijklmnopqrstuvwxyz0123456789_"
     for _ in range(6 if thorough else 2):
         # a guard symbol must be a C identifier: names starting with a digit are left out
